@@ -686,6 +686,10 @@ def rules(rep, facts):
     r8_attach_model(rep, facts)
     r9_keyval_model(rep, facts)
     r7_one_name(rep, facts)
+    from .rules_events import r_verdicts, r_verdict_space
+    r_verdicts(rep, facts)
+    if facts.config == 'default':
+        r_verdict_space(rep, facts, length=4 if rep.tier == 'thorough' else 3, alphabet=12)
 
 
 def run(tier):
